@@ -254,6 +254,10 @@ func (db *MultiBucketBackend) CreateBucket(name string) error {
 	db.lock.Lock()
 	defer db.lock.Unlock()
 
+	if !bucketDirName(name) {
+		return gofakes3.ErrorMessage(gofakes3.ErrInvalidBucketName, "the bucket name cannot be used as a directory name")
+	}
+
 	if _, err := db.bucketFs.Stat(name); os.IsNotExist(err) {
 		if err := db.bucketFs.MkdirAll(name, db.dirMode); err != nil {
 			return err
@@ -269,6 +273,10 @@ func (db *MultiBucketBackend) CreateBucket(name string) error {
 func (db *MultiBucketBackend) DeleteBucket(name string) (rerr error) {
 	db.lock.Lock()
 	defer db.lock.Unlock()
+
+	if !bucketDirName(name) {
+		return gofakes3.BucketNotFound(name)
+	}
 
 	entries, err := afero.ReadDir(db.bucketFs, name)
 	if err != nil {
@@ -305,6 +313,10 @@ func (db *MultiBucketBackend) ForceDeleteBucket(name string) error {
 	db.lock.Lock()
 	defer db.lock.Unlock()
 
+	if !bucketDirName(name) {
+		return gofakes3.BucketNotFound(name)
+	}
+
 	// Delete all objects in the bucket, and the bucket itself
 	if err := removeTree(db.bucketFs, name); err != nil {
 		return err
@@ -319,16 +331,26 @@ func (db *MultiBucketBackend) ForceDeleteBucket(name string) error {
 }
 
 func (db *MultiBucketBackend) BucketExists(name string) (exists bool, err error) {
-	if name == "" || name == "." || name == ".." || strings.ContainsAny(name, `/\`) {
-		// Not the name of a directory below the buckets root: "." is the
-		// root itself, and the key of a request addressed to it would be
-		// resolved inside whichever bucket its first segment names.
-		return false, nil
-	}
 	db.lock.Lock()
 	defer db.lock.Unlock()
-	exists, err = afero.Exists(db.bucketFs, name)
-	return
+	return db.bucketExistsLocked(name)
+}
+
+// bucketDirName reports whether name can be the name of a directory directly
+// below the buckets root. "." is the root itself and ".." its parent: the key
+// of a request addressed to them would be resolved inside whichever bucket its
+// first segment names.
+func bucketDirName(name string) bool {
+	return name != "" && name != "." && name != ".." && !strings.ContainsAny(name, `/\`)
+}
+
+// bucketExistsLocked is the one place that decides whether a bucket exists;
+// every operation that takes a bucket name goes through it.
+func (db *MultiBucketBackend) bucketExistsLocked(name string) (exists bool, err error) {
+	if !bucketDirName(name) {
+		return false, nil
+	}
+	return afero.Exists(db.bucketFs, name)
 }
 
 func (db *MultiBucketBackend) HeadObject(bucketName, objectName string) (*gofakes3.Object, error) {
@@ -340,7 +362,7 @@ func (db *MultiBucketBackend) HeadObject(bucketName, objectName string) (*gofake
 	defer db.lock.Unlock()
 
 	// Another slighly racy check:
-	exists, err := afero.Exists(db.bucketFs, bucketName)
+	exists, err := db.bucketExistsLocked(bucketName)
 	if err != nil {
 		return nil, err
 	} else if !exists {
@@ -388,7 +410,7 @@ func (db *MultiBucketBackend) GetObject(bucketName, objectName string, rangeRequ
 	defer db.lock.Unlock()
 
 	// Another slighly racy check:
-	exists, err := afero.Exists(db.bucketFs, bucketName)
+	exists, err := db.bucketExistsLocked(bucketName)
 	if err != nil {
 		return nil, err
 	} else if !exists {
@@ -479,7 +501,7 @@ func (db *MultiBucketBackend) PutObject(
 	defer db.lock.Unlock()
 
 	// Another slighly racy check:
-	exists, err := afero.Exists(db.bucketFs, bucketName)
+	exists, err := db.bucketExistsLocked(bucketName)
 	if err != nil {
 		return result, err
 	} else if !exists {
@@ -581,7 +603,7 @@ func (db *MultiBucketBackend) DeleteObject(bucketName, objectName string) (resul
 	defer db.lock.Unlock()
 
 	// Another slighly racy check:
-	exists, err := afero.Exists(db.bucketFs, bucketName)
+	exists, err := db.bucketExistsLocked(bucketName)
 	if err != nil {
 		return result, err
 	} else if !exists {
@@ -631,7 +653,7 @@ func (db *MultiBucketBackend) DeleteMulti(bucketName string, objects ...string) 
 	defer db.lock.Unlock()
 
 	// Another slighly racy check:
-	exists, err := afero.Exists(db.bucketFs, bucketName)
+	exists, err := db.bucketExistsLocked(bucketName)
 	if err != nil {
 		return result, err
 	} else if !exists {
